@@ -524,3 +524,242 @@ Qed.
 Lemma ex_ls_hyp : length [0; 1; 2] = length [1; 3; 5] /\
   INR (length [0; 1; 2]) * SumL (fun t => t ^ 2) [0; 1; 2] - Rlsum [0; 1; 2] * Rlsum [0; 1; 2] <> 0.
 Proof. split; [reflexivity|]. cbn. lra. Qed.
+
+(* ---------------------------------------------------------------- contraction of gradient descent *)
+(* a symmetric 2x2 matrix [[a, b], [b, c]] with trace >= 0 and determinant >= 0 is positive semidefinite *)
+Lemma psd2 (a b c u v : R) : 0 <= a + c -> 0 <= a * c - b * b ->
+  0 <= a * (u * u) + 2 * b * (u * v) + c * (v * v).
+Proof.
+  intros Ht Hd.
+  pose proof (Rle_0_sqr b) as Hb. unfold Rsqr in Hb.
+  assert (Hac : 0 <= a * c) by lra.
+  assert (Ha : 0 <= a).
+  { destruct (Rle_or_lt 0 a) as [L|L]; [exact L|exfalso].
+    assert (0 < c) by lra. assert (a * c < 0) by nra. lra. }
+  destruct (Req_dec a 0) as [E|E].
+  - subst a. assert (Eb : b * b = 0) by lra.
+    assert (b = 0) by (destruct (Rmult_integral _ _ Eb); assumption). subst b.
+    pose proof (Rle_0_sqr v) as Hv. unfold Rsqr in Hv. nra.
+  - assert (Hp : 0 < a) by lra.
+    apply Rmult_le_reg_l with a; [exact Hp|]. rewrite Rmult_0_r.
+    replace (a * (a * (u * u) + 2 * b * (u * v) + c * (v * v)))
+      with ((a * u + b * v) * (a * u + b * v) + (a * c - b * b) * (v * v)) by ring.
+    pose proof (Rle_0_sqr (a * u + b * v)) as H1. unfold Rsqr in H1.
+    pose proof (Rle_0_sqr v) as H2. unfold Rsqr in H2.
+    pose proof (Rmult_le_pos _ _ Hd H2). lra.
+Qed.
+
+(* the two (real) roots of the characteristic polynomial of a real symmetric 2x2 matrix *)
+Definition sym2_disc (p q r : R) : R := (p - r) * (p - r) + 4 * (q * q).
+Definition sym2_root (sgn p q r : R) : R := (p + r + sgn * sqrt (sym2_disc p q r)) / 2.
+
+Lemma sym2_disc_nonneg p q r : 0 <= sym2_disc p q r.
+Proof.
+  unfold sym2_disc. pose proof (Rle_0_sqr (p - r)) as H1. pose proof (Rle_0_sqr q) as H2.
+  unfold Rsqr in *. lra.
+Qed.
+
+Lemma sym2_root_is_root sgn p q r : sgn * sgn = 1 ->
+  let mu := sym2_root sgn p q r in
+  mu * mu - (p + r) * mu + (p * r - q * q) = 0.
+Proof.
+  intros Hs mu. unfold mu, sym2_root.
+  set (s := sqrt (sym2_disc p q r)).
+  assert (Es : s * s = sym2_disc p q r) by (apply sqrt_sqrt, sym2_disc_nonneg).
+  replace ((p + r + sgn * s) / 2 * ((p + r + sgn * s) / 2) - (p + r) * ((p + r + sgn * s) / 2) + (p * r - q * q))
+    with (((sgn * sgn) * (s * s) - sym2_disc p q r) / 4) by (unfold sym2_disc; field).
+  rewrite Hs, Es. field.
+Qed.
+
+Lemma sym2_vieta p q r :
+  sym2_root 1 p q r + sym2_root (-1) p q r = p + r /\
+  sym2_root 1 p q r * sym2_root (-1) p q r = p * r - q * q.
+Proof.
+  unfold sym2_root. set (s := sqrt (sym2_disc p q r)).
+  assert (Es : s * s = sym2_disc p q r) by (apply sqrt_sqrt, sym2_disc_nonneg).
+  split; [field|].
+  replace ((p + r + 1 * s) / 2 * ((p + r + -1 * s) / 2)) with (((p + r) * (p + r) - s * s) / 4) by field.
+  rewrite Es. unfold sym2_disc. field.
+Qed.
+
+(* every root of the characteristic polynomial is one of the two *)
+Lemma sym2_roots_only p q r mu : mu * mu - (p + r) * mu + (p * r - q * q) = 0 ->
+  mu = sym2_root 1 p q r \/ mu = sym2_root (-1) p q r.
+Proof.
+  intro H. destruct (sym2_vieta p q r) as [V1 V2].
+  assert (E : (mu - sym2_root 1 p q r) * (mu - sym2_root (-1) p q r) = 0).
+  { replace ((mu - sym2_root 1 p q r) * (mu - sym2_root (-1) p q r))
+      with (mu * mu - (sym2_root 1 p q r + sym2_root (-1) p q r) * mu + sym2_root 1 p q r * sym2_root (-1) p q r) by ring.
+    rewrite V1, V2. exact H. }
+  destruct (Rmult_integral _ _ E); [left|right]; lra.
+Qed.
+
+(* if rho dominates both eigenvalues in absolute value, the matrix contracts Euclidean length by rho *)
+Lemma sym2_contraction (p q r rho u v : R) :
+  (forall mu, mu * mu - (p + r) * mu + (p * r - q * q) = 0 -> mu * mu <= rho * rho) ->
+  (p * u + q * v) * (p * u + q * v) + (q * u + r * v) * (q * u + r * v) <= rho * rho * (u * u + v * v).
+Proof.
+  intro Hrho.
+  pose proof (Hrho _ (sym2_root_is_root 1 p q r ltac:(ring))) as H1.
+  pose proof (Hrho _ (sym2_root_is_root (-1) p q r ltac:(ring))) as H2.
+  destruct (sym2_vieta p q r) as [V1 V2].
+  set (m1 := sym2_root 1 p q r) in *. set (m2 := sym2_root (-1) p q r) in *. clearbody m1 m2.
+  assert (T : p * p + 2 * (q * q) + r * r = m1 * m1 + m2 * m2).
+  { replace (m1 * m1 + m2 * m2) with ((m1 + m2) * (m1 + m2) - 2 * (m1 * m2)) by ring.
+    rewrite V1, V2. ring. }
+  assert (Dt : (p * r - q * q) * (p * r - q * q) = (m1 * m2) * (m1 * m2)) by (rewrite V2; reflexivity).
+  set (a := rho * rho - (p * p + q * q)). set (b := - (q * (p + r))). set (c := rho * rho - (q * q + r * r)).
+  assert (Ht : 0 <= a + c).
+  { replace (a + c) with (2 * (rho * rho) - (p * p + 2 * (q * q) + r * r)) by (unfold a, c; ring).
+    rewrite T. lra. }
+  assert (Hd : 0 <= a * c - b * b).
+  { replace (a * c - b * b)
+      with ((rho * rho) * (rho * rho) - (rho * rho) * (p * p + 2 * (q * q) + r * r) + (p * r - q * q) * (p * r - q * q))
+      by (unfold a, b, c; ring).
+    rewrite T, Dt.
+    replace ((rho * rho) * (rho * rho) - (rho * rho) * (m1 * m1 + m2 * m2) + (m1 * m2) * (m1 * m2))
+      with ((rho * rho - m1 * m1) * (rho * rho - m2 * m2)) by ring.
+    apply Rmult_le_pos; lra. }
+  pose proof (psd2 a b c u v Ht Hd) as P.
+  replace (a * (u * u) + 2 * b * (u * v) + c * (v * v))
+    with (rho * rho * (u * u + v * v) - ((p * u + q * v) * (p * u + q * v) + (q * u + r * v) * (q * u + r * v)))
+    in P by (unfold a, b, c; ring).
+  lra.
+Qed.
+
+(* k steps of the model's loop from w0 *)
+Definition gd_iter (k : nat) (alpha : R) (x y : list R) (w0 : R * R) : R * R :=
+  for_range 0 k (fun _ w => gd_step alpha (INR (length y)) x y w) w0.
+Definition err2 (w : R * R) (a b : R) : R := (fst w - a) * (fst w - a) + (snd w - b) * (snd w - b).
+
+Lemma c15_gd_contraction : forall (alpha : R) (x y : list R) (a b rho : R) (w0 : R * R) (k : nat),
+  length x = length y -> INR (length y) <> 0 ->
+  Nres 0 [a; b] x y = 0 -> Nres 1 [a; b] x y = 0 ->
+  let n := INR (length y) in
+  let M00 := 1 - alpha in
+  let M01 := - (alpha * (Rlsum x / n)) in
+  let M11 := 1 - alpha * (SumL (fun t => t ^ 2) x / n) in
+  (forall mu, mu * mu - (M00 + M11) * mu + (M00 * M11 - M01 * M01) = 0 -> mu * mu <= rho * rho) ->
+  err2 (gd_iter k alpha x y w0) a b <= rho ^ (2 * k) * err2 w0 a b.
+Proof.
+  intros alpha x y a b rho w0 k Hl Hn N0 N1. cbv zeta. intro Hrho.
+  induction k as [|k IH].
+  - unfold gd_iter. replace (2 * 0)%nat with 0%nat by lia. cbn [for_range pow]. lra.
+  - unfold gd_iter in *. rewrite for_range_S. cbn [Nat.add].
+    set (w := for_range 0 k (fun _ w => gd_step alpha (INR (length y)) x y w) w0) in *.
+    rewrite (surjective_pairing w).
+    destruct (c15_gd_recurrence alpha x y a b (fst w) (snd w) Hl Hn N0 N1) as [R0 [R1 _]].
+    cbv zeta in R0, R1.
+    set (w' := gd_step alpha (INR (length y)) x y (fst w, snd w)) in *.
+    unfold err2 at 1. rewrite R0, R1.
+    set (n := INR (length y)) in *. set (sx := Rlsum x) in *. set (sxx := SumL (fun t => t ^ 2) x) in *.
+    pose proof (sym2_contraction (1 - alpha) (- (alpha * (sx / n))) (1 - alpha * (sxx / n)) rho
+                  (fst w - a) (snd w - b) Hrho) as C.
+    replace (2 * S k)%nat with (S (S (2 * k))) by lia. cbn [pow].
+    assert (Hr : 0 <= rho * rho) by (pose proof (Rle_0_sqr rho) as Q; unfold Rsqr in Q; exact Q).
+    assert (Hstep : (fst w - a - alpha * (fst w - a + sx / n * (snd w - b))) * (fst w - a - alpha * (fst w - a + sx / n * (snd w - b)))
+                  + (snd w - b - alpha * (sx / n * (fst w - a) + sxx / n * (snd w - b))) * (snd w - b - alpha * (sx / n * (fst w - a) + sxx / n * (snd w - b)))
+                  <= rho * rho * err2 w a b).
+    { unfold err2. eapply Rle_trans; [|exact C]. right. ring. }
+    pose proof (Rmult_le_compat_l _ _ _ Hr IH) as Q.
+    lra.
+Qed.
+
+(* a stable step: every eigenvalue lambda of H = (1/n)[[n, Σx],[Σx, Σx²]] has 0 < alpha*lambda < 2;
+   then some rho < 1 dominates the eigenvalues of I - alpha H *)
+Lemma c15_gd_stable_step : forall (alpha h01 h11 : R), 0 < alpha ->
+  (forall lam, lam * lam - (1 + h11) * lam + (1 * h11 - h01 * h01) = 0 -> 0 < lam /\ alpha * lam < 2) ->
+  exists rho, 0 <= rho < 1 /\
+    forall mu, mu * mu - ((1 - alpha) + (1 - alpha * h11)) * mu
+               + ((1 - alpha) * (1 - alpha * h11) - (- (alpha * h01)) * (- (alpha * h01))) = 0 ->
+               mu * mu <= rho * rho.
+Proof.
+  intros alpha h01 h11 Ha Hlam.
+  set (p := 1 - alpha). set (q := - (alpha * h01)). set (r := 1 - alpha * h11).
+  assert (Hroot : forall mu, mu * mu - (p + r) * mu + (p * r - q * q) = 0 -> -1 < mu < 1).
+  { intros mu Hmu.
+    destruct (Hlam ((1 - mu) / alpha)) as [L1 L2].
+    - replace ((1 - mu) / alpha * ((1 - mu) / alpha) - (1 + h11) * ((1 - mu) / alpha) + (1 * h11 - h01 * h01))
+        with ((mu * mu - (p + r) * mu + (p * r - q * q)) / (alpha * alpha)) by (unfold p, q, r; field; lra).
+      rewrite Hmu. field. lra.
+    - assert (E : alpha * ((1 - mu) / alpha) = 1 - mu) by (field; lra).
+      rewrite E in L2.
+      assert (0 < 1 - mu).
+      { apply Rmult_lt_reg_l with (/ alpha); [apply Rinv_0_lt_compat; exact Ha|].
+        rewrite Rmult_0_r. unfold Rdiv in L1. rewrite Rmult_comm. exact L1. }
+      lra. }
+  pose proof (Hroot _ (sym2_root_is_root 1 p q r ltac:(ring))) as B1.
+  pose proof (Hroot _ (sym2_root_is_root (-1) p q r ltac:(ring))) as B2.
+  exists (Rmax (Rabs (sym2_root 1 p q r)) (Rabs (sym2_root (-1) p q r))). split.
+  - split.
+    + eapply Rle_trans; [apply Rabs_pos|apply Rmax_l].
+    + apply Rmax_lub_lt; apply Rabs_def1; lra.
+  - intros mu Hmu.
+    set (rho := Rmax _ _).
+    assert (Hm : Rabs mu <= rho).
+    { destruct (sym2_roots_only p q r mu Hmu) as [-> | ->]; [apply Rmax_l|apply Rmax_r]. }
+    pose proof (Rabs_pos mu) as P0.
+    replace (mu * mu) with (Rabs mu * Rabs mu).
+    + apply Rmult_le_compat; assumption.
+    + fold (Rsqr (Rabs mu)). rewrite <- Rsqr_abs. reflexivity.
+Qed.
+
+(* with rho < 1 the coefficients returned by the fit converge to the least-squares optimum *)
+Lemma c15_gd_converges : forall (alpha : R) (x y : list R) (a b rho : R),
+  length x = length y -> INR (length y) <> 0 ->
+  Nres 0 [a; b] x y = 0 -> Nres 1 [a; b] x y = 0 ->
+  let n := INR (length y) in
+  let M00 := 1 - alpha in
+  let M01 := - (alpha * (Rlsum x / n)) in
+  let M11 := 1 - alpha * (SumL (fun t => t ^ 2) x / n) in
+  0 <= rho < 1 ->
+  (forall mu, mu * mu - (M00 + M11) * mu + (M00 * M11 - M01 * M01) = 0 -> mu * mu <= rho * rho) ->
+  forall eps, 0 < eps -> exists K, forall k, (K <= k)%nat ->
+    let c := coefs (gd_fit k alpha x y) in
+    (nth 0 c 0 - a) * (nth 0 c 0 - a) + (nth 1 c 0 - b) * (nth 1 c 0 - b) < eps.
+Proof.
+  intros alpha x y a b rho Hl Hn N0 N1. cbv zeta. intros [Hr0 Hr1] Hrho eps Heps.
+  set (w0 := (Rlsum y / INR (length y), 0)).
+  set (E0 := err2 w0 a b).
+  assert (HE0 : 0 <= E0).
+  { unfold E0, err2. pose proof (Rle_0_sqr (fst w0 - a)) as Q1. pose proof (Rle_0_sqr (snd w0 - b)) as Q2.
+    unfold Rsqr in *. lra. }
+  assert (Hrr : Rabs (rho * rho) < 1).
+  { rewrite Rabs_pos_eq by (apply Rmult_le_pos; assumption).
+    assert (rho * rho <= rho * 1) by (apply Rmult_le_compat_l; lra). lra. }
+  destruct (pow_lt_1_zero (rho * rho) Hrr (eps / (E0 + 1)) ltac:(apply Rdiv_lt_0_compat; lra)) as [K HK].
+  exists K. intros k Hk. cbv zeta. rewrite gd_fit_coefs. cbv zeta. cbn [nth].
+  pose proof (c15_gd_contraction alpha x y a b rho w0 k Hl Hn N0 N1 Hrho) as C.
+  unfold gd_iter in C. fold w0. unfold err2 in C at 1.
+  specialize (HK k Hk).
+  rewrite Rabs_pos_eq in HK by (apply pow_le; apply Rmult_le_pos; assumption).
+  rewrite pow_mult in C. cbn [pow] in C. rewrite Rmult_1_r in C.
+  fold E0 in C.
+  assert (Hb : (rho * rho) ^ k * E0 <= (rho * rho) ^ k * (E0 + 1)).
+  { apply Rmult_le_compat_l; [apply pow_le; apply Rmult_le_pos; assumption|lra]. }
+  assert (Hc : (rho * rho) ^ k * (E0 + 1) < eps).
+  { apply Rmult_lt_reg_r with (/ (E0 + 1)); [apply Rinv_0_lt_compat; lra|].
+    rewrite Rmult_assoc, Rinv_r by lra. rewrite Rmult_1_r. exact HK. }
+  lra.
+Qed.
+
+(* non-vacuity: x = [-1,0,1], y = [1,3,5] (optimum a = 3, b = 2), alpha = 1/2: I - alpha H = diag(1/2, 2/3), rho = 2/3 *)
+Lemma ex_gd_hyp :
+  length [-1; 0; 1] = length [1; 3; 5] /\ INR (length [1; 3; 5]) <> 0 /\
+  Nres 0 [3; 2] [-1; 0; 1] [1; 3; 5] = 0 /\ Nres 1 [3; 2] [-1; 0; 1] [1; 3; 5] = 0 /\
+  0 <= 2 / 3 < 1 /\
+  (let n := INR (length [1; 3; 5]) in
+   let M00 := 1 - 1 / 2 in
+   let M01 := - (1 / 2 * (Rlsum [-1; 0; 1] / n)) in
+   let M11 := 1 - 1 / 2 * (SumL (fun t => t ^ 2) [-1; 0; 1] / n) in
+   forall mu, mu * mu - (M00 + M11) * mu + (M00 * M11 - M01 * M01) = 0 -> mu * mu <= 2 / 3 * (2 / 3)).
+Proof.
+  split; [reflexivity|]. split; [cbn; lra|].
+  split; [unfold Nres, SumL, Rpeval; cbn; lra|]. split; [unfold Nres, SumL, Rpeval; cbn; lra|].
+  split; [lra|]. cbv zeta. intros mu H.
+  assert (E : (mu - 1 / 2) * (mu - 2 / 3) = 0).
+  { rewrite <- H. unfold SumL, Rlsum. cbn. field. }
+  destruct (Rmult_integral _ _ E) as [Z|Z].
+  - replace mu with (1 / 2) by lra. lra.
+  - replace mu with (2 / 3) by lra. lra.
+Qed.
